@@ -28,6 +28,9 @@ TEXTS = ['gpl 2.0 or mit', 'mit or gpl 2.0', 'mit and gpl 2.0 and mit', 'mit and
          'gplv2', 'gplv2 or mit', 'GPLv2 with classpath', 'mit and GPLV2']
 
 
+TEXT_OPS = ['validate_text', 'keys_text', 'unknown_text', 'equiv_text', 'contains_text', 'dedup_text', 'symbols_text', 'primary_text']
+
+
 def gen_history(rng):
     ops = []
     ninst = 0
@@ -53,7 +56,7 @@ def gen_history(rng):
             ninst += 1   # upper bound: refused tables do not create an instance
         elif r < 0.2:
             # queries on texts that do not go through parse() of the harness: compared with a fresh instance only
-            ops.append((rng.choice(['validate_text', 'keys_text', 'unknown_text', 'equiv_text']), rng.randrange(ninst),
+            ops.append((rng.choice(TEXT_OPS), rng.randrange(ninst),
                         rng.random() < 0.4, rng.choice(TEXTS), rng.choice(TEXTS)))
         elif r < 0.5 or nexpr_upper == 0:
             ops.append(('parse', rng.randrange(ninst), rng.random() < 0.3, rng.random() < 0.3, rng.random() < 0.3, rng.choice(TEXTS)))
@@ -142,7 +145,7 @@ def run_history(ops, le):
                         if not err:
                             err = 'parse(%r) on a used Licensing reports unknown keys, a fresh one raises %r' % (s, str(ex)[:80])
                 obs.append([1, g])
-        elif kind in ('validate_text', 'keys_text', 'unknown_text', 'equiv_text'):
+        elif kind in TEXT_OPS:
             _, i, flag, s1, s2 = op
             if i < len(insts):
                 L, F = insts[i], make_licensing(tables[i])
@@ -154,7 +157,15 @@ def run_history(ops, le):
                         return X.license_keys(s1, simple=flag)
                     if kind == 'unknown_text':
                         return X.unknown_license_keys(s1, simple=flag)
-                    return X.is_equivalent(s1, s2, simple=flag)
+                    if kind == 'equiv_text':
+                        return X.is_equivalent(s1, s2, simple=flag)
+                    if kind == 'contains_text':
+                        return X.contains(s1, s2, simple=flag)
+                    if kind == 'dedup_text':
+                        return enc_expr(X.dedup(s1))
+                    if kind == 'symbols_text':
+                        return [repr(x) for x in X.license_symbols(s1, unique=flag, decompose=not flag)]
+                    return X.primary_license_key(s1, simple=flag)
                 a, b = outcome_of(lambda: ask(L), lambda x: x), outcome_of(lambda: ask(F), lambda x: x)
                 if a != b and not err:
                     err = '%s(%r, %r) on a used Licensing %r differs from a fresh one %r' % (kind, s1, flag, a, b)
@@ -232,10 +243,24 @@ def run(rep, tier, seed):
             for f2 in flags:
                 if f1 != f2:
                     hist.append([('new', T0), ('parse', 0) + f1 + (s_,), ('parse', 0) + f2 + (s_,)])
-    for a, b in (('foo', 'FOO'), ('mit  or foo', 'mit or foo'), ('gplv2', 'GPLV2'), ('MIT', 'mit')):
+    related = [('foo', 'FOO'), ('mit  or foo', 'mit or foo'), ('gplv2', 'GPLV2'), ('MIT', 'mit'),
+               # the same operands in another order, repeated, or spelled through an alias
+               ('mit and gpl 2.0', 'gpl 2.0 and mit'), ('mit or gpl 2.0 or foo', 'foo or mit or gpl 2.0 or mit'),
+               ('(mit or gpl 2.0) and foo', 'foo and (gnu gpl v2 or MIT)'), ('gpl 2.0 with classpath or mit', 'mit or gpl 2.0 with classpath'),
+               ('foo and bar and foo', 'bar and foo'), ('gplv2 or mit', 'GPL 2.0 or mit')]
+    for a, b in related:
         for f1 in flags:
             hist.append([('new', T0), ('parse', 0) + f1 + (a,), ('parse', 0) + f1 + (b,)])
             hist.append([('new', T0), ('parse', 0) + f1 + (b,), ('parse', 0) + f1 + (a,)])
+        # every query on texts: first on one text, then on the related one; and the same text under the other flag value
+        for k in TEXT_OPS:
+            for fl in (False, True):
+                hist.append([('new', T0), (k, 0, fl, a, b), (k, 0, fl, b, a)])
+                hist.append([('new', T0), (k, 0, fl, b, a), (k, 0, fl, a, b)])
+                hist.append([('new', T0), (k, 0, fl, a, b), (k, 0, not fl, a, b)])
+        # results of parse handed to dedup / simplify / listings one after the other
+        hist.append([('new', T0), ('parse', 0, False, False, False, a), ('parse', 0, False, False, False, b), ('dedup', 0, 0), ('dedup', 0, 1),
+                     ('keys', 0, 0), ('keys', 0, 1), ('simplify', 0), ('simplify', 1), ('equiv', 0, 0, 1), ('contains', 0, 0, 1)])
     results = [run_history(h, le) for h in hist]
     res = run_model([(17, r[2]) for r in results], chunk=100)
     rep.trail = []
